@@ -162,6 +162,7 @@ structure DState where
   table : List Bundle := []     -- every bundle mentioned so far: the parser's domain
   model : State := State.empty
   spec : SMap := []
+  failed : Bool := false        -- a verdict other than ok was given in this sequence
 
 /-- `bpv7.ParseBundle` on a part file: the bundle whose encoding starts the file; rejected when
 its lifetime is exceeded (`CheckValid`). -/
@@ -426,7 +427,7 @@ def handleStress (d : DState) (pushes : List String) (res : String) (dump : List
       | none => (d', "ok")
   | _, _ => (d, "skip parse")
 
-def handle (d : DState) (line : String) : DState × String :=
+def handle1 (d : DState) (line : String) : DState × String :=
   match fields line with
   | ["begin", sid, _, now] =>
     ({ sid := sid, now := ((after "now=" now).bind String.toNat?).getD 0 }, "ok")
@@ -456,6 +457,13 @@ def handle (d : DState) (line : String) : DState × String :=
       else (d', s!"diff reset store-not-empty files={g.files} knows={g.knows}")
     | none => (d', "skip parse")
   | _ => (d, "skip unknown-op")
+
+/-- Only the first deviation of a sequence is reported: the reference map and the model are not
+re-synchronised with the implementation afterwards. -/
+def handle (d : DState) (line : String) : DState × String :=
+  if d.failed && !line.startsWith "begin " then (d, "skip after-failure") else
+  let (d', v) := handle1 d line
+  (if v.startsWith "ok" then d' else { d' with failed := true }, v)
 
 end C08
 
